@@ -689,6 +689,9 @@ class EvalFunc:
                     local_names=self.local_names,
                 )
             )
+        # the declarations hold for the whole body, whether or not their statement is ever executed
+        self.global_names = set(global_names)
+        self.nonlocal_names = set(nonlocal_names)
         for var_name in var_names:
             got_dot = var_name.find(".")
             if got_dot >= 0:
